@@ -54,7 +54,7 @@ def run(ctx):
     conf = confirm_with(ctx, "walk")
     ctx.candidates = ctx.keep_confirmed(modelCands, conf) + confirmedTrace
     ctx.exhaustive = True
-    ctx.rule = ("model: all ordered trees <= 4 (quick) / 5 (thorough) nodes x typings x prune sets x abort points x nil callbacks x virtual root, each "
+    ctx.rule = ("model: all ordered trees <= 4 (quick) / 5 (thorough) nodes x typings x prune sets x abort points x nil callbacks x the zero Node as root or as the root's first child (custom child functions), each "
                 "replayed on the real Walk through custom child functions; real trees: root blocks of spec examples and seeded mixed inputs with 2 seeded "
                 "policies each, default accessors; non-trivial = >= 3 (model) / >= 4 (real) nodes; distinct by (tree, policy)")
     ctx.assumptions += ["callbacks are pure functions of the node (prune set / abort point), as the property's policies are"]
